@@ -15,6 +15,12 @@ Streams
            it was started with while jedi still references its CompiledSubprocess; and no fds at the end.
            Deaths come from the wrapper's fault plans and from the harness itself (SIGKILL between two
            queries + waitid(WNOWAIT): a deterministic "dead before the request is written").
+           Helper-side state: with the last stateful request (id, function) the helper served in a step it
+           must hold no inference state of a Script that was discarded before the step began (the deletion
+           queue is flushed before every such request).  `prog` cases keep several Scripts alive at the same
+           time (distinct ids), make requests of theirs raise inside the surviving helper (first / only
+           stateful request: _test_raise_error(ValueError), or the wrapper's `raises` fault), drop them and
+           go on.
   churn    many Scripts created and dropped on one helper: helper-side live states subset of live Scripts.
 """
 import gc
@@ -41,9 +47,15 @@ MANIFEST = dict(
          'all three pipes for every subset of streams whose close() raises an OSError (cleanup_closes_all_streams, '
          'over the loop shape / stream list / except clause read from the source), hence a crashed or finalized '
          'helper holds no descriptor at any point of any trace (no_leaked_pipes); kernel-checked counter-witness '
-         'for the shape with one try/except around the whole loop. Tie: translator (except clauses, _kill, '
-         '__del__ guard, replacement test, close-loop shape) + trace correspondence (incl. open pipe count per '
-         'helper after every operation) through a fault-injecting stand-in for the environment executable and '
+         'for the shape with one try/except around the whole loop; every inference state the helper holds is '
+         'queued for deletion or belongs to a live, _used Script bound to that helper, for every plan and trace '
+         '(states_owned_or_queued), hence after one further served request nothing is left of a dropped Script '
+         'whatever the outcomes of its requests were (discarded_states_released, over the position of '
+         '`self._used = True` relative to run() read from the source); kernel-checked counter-witnesses for the '
+         'mark moved behind run() (leaked state, stale state reused after id() reuse). Tie: translator (except clauses, _kill, '
+         '__del__ guard and body, _used writes, run() flush loop, replacement test, close-loop shape) + trace '
+         'correspondence (incl. open pipe count and helper-side inference states per helper after every '
+         'operation) through a fault-injecting stand-in for the environment executable and '
          'SIGKILLs from the harness.',
     note='Modelled not verified: pipes, pickle framing (which exception a truncated stream raises is measured '
          'per case), process reaping, weakref.finalize once-only semantics, GC timing, that close() releases the '
@@ -114,6 +126,7 @@ class Rec:
         self.log = None
         self.logpos = 0
         self.events = []
+        self.last_states = {}  # helper pid -> python ids in Listener._inference_states at its last logged request
 
     def serial(self, pyid):
         if pyid not in self.ids:
@@ -127,13 +140,18 @@ class Rec:
             self.logpos = f.tell()
         for line in data.splitlines():
             try:
-                self.events.append(json.loads(line))
+                e = json.loads(line)
             except ValueError:
-                pass
+                continue
+            self.events.append(e)
+            if 'states' in e:
+                self.last_states[e['pid']] = e['states']
 
     def snap(self):
         out = []
         table = None
+        if self.log is not None:
+            self.read_log()
         for i, ref in enumerate(self.procs):
             p = ref()
             po = self.popens[i] if i < len(self.popens) else None
@@ -145,6 +163,8 @@ class Rec:
                 table = pipe_table()
             out.append({'idx': i, 'crashed': bool(p.is_crashed), 'started': po is not None,
                         'fds': sum(1 for t in table.values() if t in mine) if mine else 0,
+                        'child': (sorted(self.serial(x) for x in self.last_states[po.pid])
+                                  if po is not None and po.pid in self.last_states else None),
                         'reaped': po is not None and po.returncode is not None,
                         'cleanups': self.cleanups.get(po.pid, 0) if po is not None else 0,
                         'queue': [self.serial(x) for x in p._inference_state_deletion_queue]})
@@ -410,6 +430,59 @@ def do_query(env, qi, path=None, timeout=HANG_AFTER):
         s = None
 
 
+def do_step(env, slots, st, timeout=HANG_AFTER):
+    """one step of a `prog` case: Scripts are kept in `slots`, so several are alive at the same time"""
+    import jedi
+    do = st['do']
+    if do == 'query':
+        return do_query(env, st['q'], timeout=timeout)
+    signal.signal(signal.SIGALRM, _alarm)
+    signal.alarm(timeout)
+    try:
+        if do == 'new':
+            # every Script gets a path of its own: Scripts without a path share ONE parso diff-cache entry
+            # (key None), so creating the next one rewrites the module node of the previous one in place
+            # (ValueError 'Please provide a position that exists within this node' / wrong answers of the
+            # older Script) - not this property's business
+            slots['n'] = slots.get('n', 0) + 1
+            stem = 'c14prog%d_%d' % (os.getpid(), slots['n'])
+            slots[st['slot']] = (st['q'], jedi.Script(SCEN[st['q']][1], environment=env,
+                                                     path=os.path.join(SCRATCH, stem + '.py')), stem)
+            return {'ok': True, 'answer': None}
+        if do == 'drop':
+            slots.pop(st['slot'], None)
+            return {'ok': True, 'answer': None}
+        qi, script, stem = slots[st['slot']]
+        if do == 'run':
+            ans = canon(SCEN[qi][0], getattr(script, SCEN[qi][0])())
+            # the undisturbed reference run had no path: its own module is called __main__ there
+            ans = sorted(([('__main__' if v == stem else v) for v in row] for row in ans), key=repr)
+            return {'ok': True, 'q': qi, 'answer': ans}
+        if do == 'raise':
+            # a request of this Script that raises inside the (surviving) helper: ordinary control flow
+            # for jedi (ValueError "no signature", SyntaxError of safe_literal_eval, ...)
+            try:
+                script._inference_state.compiled_subprocess._test_raise_error(ValueError)
+            except ValueError:
+                return {'ok': True, 'answer': None, 'raised_in_helper': 'ValueError'}
+            return {'ok': False, 'cls': 'NoException', 'msg': '_test_raise_error(ValueError) returned'}
+        raise common.InfraError('unknown step %r' % (st,))
+    except Hang:
+        return {'ok': False, 'cls': 'HANG', 'msg': 'step did not return within %d s' % timeout}
+    except common.InfraError:
+        raise
+    except BaseException as e:
+        import traceback
+        return {'ok': False, 'cls': type(e).__name__, 'msg': str(e)[:1000], 'tb': traceback.format_exc()[-1800:]}
+    finally:
+        signal.alarm(0)
+        script = None
+
+
+def steps_of(case):
+    return case['prog'] if case.get('prog') else [{'do': 'query', 'q': qi} for qi in case['queries']]
+
+
 def run_case(case):
     """executes one case in this (worker) process; returns everything observed"""
     from jedi.api.environment import Environment
@@ -431,21 +504,25 @@ def run_case(case):
                     JEDI_VERIF_LOG=log_file)
     res = {'id': case['id'], 'queries': [], 'env_error': None}
     env = None
+    slots = {}
     try:
         try:
             env = Environment(WRAPPER, env_vars=env_vars)
         except BaseException as e:
             res['env_error'] = [type(e).__name__, str(e)[:300]]
         if env is not None:
-            for qn, qi in enumerate(case['queries']):
+            for qn, st in enumerate(steps_of(case)):
                 n_ops = len(rec.ops)
+                # (no read_log here: what the helper logged while the environment was created - e.g. a
+                # fault plan that fires with the handshake - is attributed to the first step)
                 n_ev = len(rec.events)
+                # InferenceStateSubprocess objects alive when the step starts (python ids)
+                alive0 = sorted(pid_ for pid_, ref in rec.live.items() if ref() is not None)
                 if qn in case.get('kills', ()):
                     ev = harness_kill(rec)
-                    n_ev = len(rec.events)
                     if ev is not None:
                         rec.events.append(ev)
-                q = do_query(env, qi, timeout=case.get('timeout', HANG_AFTER))
+                q = do_step(env, slots, st, timeout=case.get('timeout', HANG_AFTER))
                 # census before anything is collected: the crashed CompiledSubprocess is still
                 # Environment._subprocess here
                 q['dead_pipes'] = dead_pipes(rec)
@@ -456,16 +533,36 @@ def run_case(case):
                 q['faults'] = [e for e in rec.events[n_ev:] if e.get('ev') == 'fault']
                 q['zombies_after'] = len([z for z in zombies() if z not in kids0])
                 # helper-side states of the current helper right after the query
-                st = None
+                cs = None
                 for e in reversed(rec.events):
                     if e.get('ev') in ('req', 'fault') and 'states' in e:
-                        st = (e['pid'], [rec.serial(x) for x in e['states']])
+                        cs = (e['pid'], [rec.serial(x) for x in e['states']])
                         break
-                q['child_states'] = st
+                q['child_states'] = cs
+                # "helper-side state of discarded Scripts is released": the states the helper held when
+                # it served the LAST stateful request (id, function) of this step - CompiledSubprocess.run
+                # has flushed the deletion queue before it - that belong to no Script alive when the step
+                # began and to none created during it
+                last = None
+                for e in rec.events[n_ev:]:
+                    if e.get('ev') in ('req', 'fault') and e.get('id') is not None and e.get('fn') \
+                            and 'states' in e:
+                        last = e
+                if last is not None:
+                    born = {rec.ids[o['s']] for o in rec.ops[n_ops:] if o['op'] == 'new' and o['out'] == 'ok'}
+                    q['stale_states'] = [rec.serial(x) for x in last['states']
+                                         if x not in alive0 and x not in born]
+                    q['states_seen'] = [len(last['states']), len(alive0), last['k']]
                 res['queries'].append(q)
         # release everything
         n_procs = len(rec.procs)
         env = None
+        if slots:
+            # Scripts with a path: jedi's time caches (call signatures are cached per module path for a few
+            # seconds) may still hold values of the last InferenceState, and through them the helper
+            from jedi import cache as jcache
+            jcache.clear_time_caches(delete_all=True)
+        slots.clear()
         gc.collect()
         n_ops_before_gc = len(rec.ops)
         Rec.cur = None
@@ -518,7 +615,13 @@ def model_request(res):
             item = {'h': pids.index(e['pid']), 'k': e['k'], 'phase': e['phase'], 'cls': ''}
             if e['phase'] == 'trunc':
                 item['cls'] = trunc_class(e['prefix'])
+            if e['phase'] == 'raises':
+                item['cls'] = 'RuntimeError'
             plan.append(item)
+        elif e.get('ev') == 'req' and e.get('exc') and e.get('fn') and e['pid'] in pids:
+            # the requested function raised inside the surviving helper (jedi's ordinary control flow);
+            # a KeyError of a deletion request (fn None) is the model's own business
+            plan.append({'h': pids.index(e['pid']), 'k': e['k'], 'phase': 'raises', 'cls': e['exc']})
     ops = [{'op': o['op'], 's': o['s']} for o in res['ops']]
     ops.append({'op': 'dropenv'})
     return {'op': 'trace', 'plan': plan, 'ops': ops}
@@ -546,6 +649,10 @@ def compare_case(ctx, case, res, ans):
                 if a[key] != b[key]:
                     diffs.append('op %d %s: proc %d %s impl=%r model=%r'
                                  % (i, o['op'], a['idx'], key, a[key], b[key]))
+            # helper-side inference states after every operation (as of the last request the helper logged)
+            if b['alive'] and a.get('child') is not None and a['child'] != sorted(b['child']):
+                diffs.append('op %d %s s=%s: helper %d live states impl=%r model=%r'
+                             % (i, o['op'], o['s'], a['idx'], a['child'], sorted(b['child'])))
         if diffs:
             break
     if not diffs and ops:
@@ -592,9 +699,14 @@ def oracle_case(ctx, case, res, expected):
     how = ('Environment(harness/helper_wrapper/python, env_vars={DAVIDHALTER_JEDI_VERIF:1, JEDI_VERIF_PLAN:'
            '<file with {"starts": plan}>}); run the listed queries as jedi.Script(src, environment=env).<method>(); '
            'before query i for i in `kills`: os.kill(<helper pid>, SIGKILL); os.waitid(P_PID, pid, WEXITED|WNOWAIT); '
+           'with `prog`: the steps new/run/raise/drop act on Scripts kept alive in slots (raise = '
+           'script._inference_state.compiled_subprocess._test_raise_error(ValueError)); '
            './check C14 --replay <this file>')
     base = {'queries': [list(SCEN[q]) for q in case['queries']], 'starts': case['starts'],
             'kills': list(case.get('kills', []))}
+    if case.get('prog'):
+        base['prog'] = [dict(st, src=list(SCEN[st['q']])) if 'q' in st else dict(st) for st in case['prog']]
+    steps = steps_of(case)
     if res['env_error'] is not None:
         # the very first helper start failing is an unusable environment, not a crash of a working helper
         ctx.count('oracle', ('env', json.dumps(case['starts'])), nontrivial=False, bucket='first-start-fails')
@@ -614,7 +726,16 @@ def oracle_case(ctx, case, res, expected):
         cul, phase = culprit_of(q, seen_faults)
         seen_faults += q['faults']
         case_d = dict(base, query_index=qn, culprit=cul, phase=phase)
-        qi = case['queries'][qn]
+        qi = q.get('q', steps[qn].get('q'))
+        if q.get('stale_states'):
+            ctx.fail('oracle', 'the helper still holds the inference state of a Script that was discarded before '
+                               'this step, although it has served a further stateful request (the deletion '
+                               'queue is flushed before every such request): helper-side state not released',
+                     dict(case_d, symptom='stale-state', step=steps[qn]),
+                     expected='helper-side states subset of the Scripts alive at the start of the step or '
+                              'created during it',
+                     observed={'stale': q['stale_states'], 'helper_states/alive_scripts/request_index':
+                               q.get('states_seen'), 'outcome': 'ok' if q['ok'] else q['cls']}, how=how)
         if q.get('dead_pipes'):
             ctx.fail('oracle', 'pipes to a dead helper are still open in the parent after its finalizer '
                                '(_cleanup_process) ran: leaked descriptors',
@@ -624,7 +745,7 @@ def oracle_case(ctx, case, res, expected):
                                'dead_helpers': q['dead_pipes'],
                                'outcome': 'ok' if q['ok'] else q['cls']}, how=how)
         if q['ok']:
-            if q['answer'] != expected[qi]:
+            if q['answer'] is not None and q['answer'] != expected[qi]:
                 ctx.fail('oracle', 'a Script after a helper crash answers differently from the undisturbed run',
                          dict(case_d, symptom='answer'), expected=expected[qi], observed=q['answer'], how=how)
             continue
@@ -661,10 +782,13 @@ def oracle_case(ctx, case, res, expected):
                              for q in res['queries'] for f in q['faults'])) or 'no-fault-hit'
     if case.get('kills'):
         bucket += '/sigkill=%d' % sum(1 for q in res['queries'] for f in q['faults'] if f.get('by'))
-    ctx.count('oracle', json.dumps([case['queries'], case['starts'], case.get('kills', [])]),
-              nontrivial=deaths + raises > 0,
+    n_nat = sum(1 for q in res['queries'] if q.get('raised_in_helper'))
+    if case.get('prog'):
+        bucket += '/prog:raised-in-helper=%d' % n_nat
+    ctx.count('oracle', json.dumps([case['queries'], case['starts'], case.get('kills', []), case.get('prog')]),
+              nontrivial=deaths + raises + n_nat > 0,
               bucket=bucket, sample={'queries': base['queries'], 'starts': case['starts'],
-                                     'kills': base['kills'],
+                                     'kills': base['kills'], 'prog': base.get('prog'),
                                      'outcomes': [q['answer'] if q['ok'] else q['cls'] for q in res['queries']]})
 
 
@@ -720,6 +844,56 @@ def gen_cases(ctx, nreqs):
     cases.append({'id': 'kill-mixed', 'queries': [0, 5, 1, 6, 0],
                   'starts': [{'k': 3, 'phase': 'after_send'}, None, {'k': 2, 'phase': 'trunc', 'n': 4}],
                   'kills': [2, 4]})
+    # Scripts alive at the same time (distinct ids), requests that raise inside the surviving helper -
+    # the first / only stateful request of a Script - then dropped; the helper's states are observed
+    # with the next served request.  No helper deaths here: a Script bound to a dead helper keeps failing.
+    def P(do, slot=None, q=None):
+        st = {'do': do}
+        if slot is not None:
+            st['slot'] = slot
+        if q is not None:
+            st['q'] = q
+        return st
+    progs = [
+        ('prog-raise-first', [], [P('new', 0, 0), P('new', 1, 3), P('new', 2, 5), P('raise', 0), P('raise', 1),
+                                  P('run', 2), P('drop', 0), P('drop', 1), P('run', 2), P('drop', 2),
+                                  P('query', q=0), P('query', q=3)]),
+        ('prog-injected-first', [{'k': 2, 'phase': 'raises'}],
+         [P('new', 0, 0), P('new', 1, 3), P('run', 0), P('drop', 0), P('run', 1), P('drop', 1), P('query', q=0)]),
+        ('prog-many', [], [P('new', j, 0) for j in range(6)] + [P('raise', j) for j in range(6)]
+         + [P('run', 5)] + [P('drop', j) for j in range(5)] + [P('query', q=0), P('run', 5), P('drop', 5),
+                                                                P('query', q=1)]),
+    ]
+    for i in range(ctx.size(4, 60)):
+        steps, live, fresh = [], [], set()
+        for _ in range(rng.randint(9, 14)):
+            acts = ['query']
+            if len(live) < 4:
+                acts += ['new', 'new']
+            if live:
+                acts += ['run', 'raise', 'raise', 'drop']
+            a = rng.choice(acts)
+            if a == 'query':
+                steps.append(P('query', q=rng.choice(allq)))
+            elif a == 'new':
+                slot = min(set(range(5)) - set(live))
+                live.append(slot)
+                steps.append(P('new', slot, rng.choice(allq)))
+            else:
+                slot = rng.choice(live)
+                steps.append(P(a, slot))
+                if a == 'drop':
+                    live.remove(slot)
+        for slot in list(live):
+            steps.append(P('drop', slot))
+        steps += [P('query', q=rng.choice(allq)), P('query', q=rng.choice(allq))]
+        starts = []
+        if rng.random() < 0.5:
+            starts = [{'k': rng.randint(2, 12), 'phase': 'raises'}]
+        progs.append(('p%d' % i, starts, steps))
+    for pid_, starts, steps in progs:
+        cases.append({'id': pid_, 'queries': [st['q'] for st in steps if 'q' in st], 'starts': starts,
+                      'prog': steps})
     for i in range(ctx.size(3, 40)):
         nq = rng.randint(3, 6)
         qs = [rng.choice(allq) for _ in range(nq)]
@@ -865,6 +1039,9 @@ def run(ctx):
     cases = gen_cases(ctx, {qi: nreqs.get(qi, 5) for qi in range(len(SCEN))})
     for c in cases:
         c['queries'] = [q if q in usable else usable[q % len(usable)] for q in c['queries']]
+        for st in c.get('prog') or []:
+            if 'q' in st and st['q'] not in usable:
+                st['q'] = usable[st['q'] % len(usable)]
     # corpus first
     cdir = os.path.join(common.CORPUS_DIR, 'C14')
     if os.path.isdir(cdir):
@@ -918,7 +1095,8 @@ def run(ctx):
                 raise common.InfraError('driver error: %r' % ans)
             diffs = compare_case(ctx, c, r, ans)
             hit = sorted({f['phase'] for q in r['queries'] for f in q['faults']})
-            ctx.count('corr', json.dumps([c['queries'], c['starts'], c.get('kills', [])]), nontrivial=bool(hit),
+            ctx.count('corr', json.dumps([c['queries'], c['starts'], c.get('kills', []), c.get('prog')]),
+                      nontrivial=bool(hit) or bool(c.get('prog')),
                       bucket='ops=%d0s/faults=%s' % (len(r['ops']) // 10, ','.join(hit) or '-'),
                       sample={'starts': c['starts'], 'n_ops': len(r['ops']),
                               'outcomes': [o['out'] for o in r['ops'] if o['out'] != 'ok']})
@@ -942,6 +1120,10 @@ def run(ctx):
         'the channel is a parameter: which fault hits which request is taken from the wrapper log, which '
         'exception class the Unpickler raises on a truncated reply is measured per case in the harness process',
         'weakref.finalize runs its callback at most once (CPython); GC happens where the harness calls gc.collect()',
+        'helper-side functions raising an exception (the helper survives) are channel events like the faults: '
+        'which request raised which class is taken from the wrapper log; a deletion request has no function',
+        'ids of live InferenceStateSubprocess objects are distinct (CPython id()); the model drops the first '
+        'object found for an id',
         'no-hang, zombie and fd statements are observed (30 s alarm, re-run alone with 180 s before a hang is '
         'reported; /proc child table; /proc/self/fd pipe census after every query), not proved',
         'a stream.close() that raises still releases its descriptor (CPython buffered close); a request whose '
@@ -959,11 +1141,25 @@ def replay(ctx, payload):
     for m, src in inp['queries']:
         qs.append(SCEN.index((m, src)) if (m, src) in SCEN else 0)
     case = {'id': 'replay', 'queries': qs, 'starts': inp['starts'], 'kills': inp.get('kills', [])}
+    if inp.get('prog'):
+        case['prog'] = []
+        for st in inp['prog']:
+            st = dict(st)
+            src = st.pop('src', None)
+            if src is not None:
+                st['q'] = SCEN.index(tuple(src)) if tuple(src) in SCEN else 0
+            case['prog'].append(st)
     res = run_cases([case], 1)[0]
-    for q, qi in zip(res.get('queries', []), qs):
-        print(SCEN[qi], '->', q['answer'] if q['ok'] else 'EXC %s: %s' % (q['cls'], q['msg'][:160]),
+    if 'infra' in res:
+        print(res['infra'])
+        return 2
+    for q, st in zip(res.get('queries', []), steps_of(case)):
+        what = (st['do'], st.get('slot'), SCEN[st['q']] if 'q' in st else None) if case.get('prog') else SCEN[st['q']]
+        print(what, '->', q['answer'] if q['ok'] else 'EXC %s: %s' % (q['cls'], q['msg'][:160]),
               'faults:', [(f['phase'], f['k'], f.get('by', 'wrapper')) for f in q['faults']],
-              'pipes of dead helpers still open:', q.get('dead_pipes'))
+              'pipes of dead helpers still open:', q.get('dead_pipes'),
+              'helper states of Scripts discarded earlier:', q.get('stale_states'),
+              '[helper states, alive Scripts, request index]:', q.get('states_seen'))
     print('zombies at end:', res.get('zombies_end'), 'fds before/after:', res.get('fds'))
     print('expected:', payload.get('expected'), 'observed at record time:', short(payload.get('observed')))
     return 0
